@@ -183,7 +183,8 @@ def power_method_opnorm(op, xstart=None, maxiter=100, rtol=1e-05, atol=1e-08,
     where ``a`` and ``b`` are consecutive iterates.
     """
     if maxiter is None:
-        maxiter = np.iinfo(int).max
+        # Largest even number, valid also for non-self-adjoint operators
+        maxiter = np.iinfo(int).max - 1
 
     maxiter, maxiter_in = int(maxiter), maxiter
     if maxiter <= 0:
